@@ -62,10 +62,10 @@ func oneOutcome(c *fw.Ctx, src, stdin, sig string) {
 		c.R.Transitions += int64(n)
 	}
 	// memory layout: the default schedule again with complete garbage collections forced at evenly
-	// spaced points of the execution (about 40, and about 8), so that the memory of dead values is
+	// spaced points of the execution (about 16), so that the memory of dead values is
 	// handed out again as early as it can be
 	if first != nil && !probe.Diverged && probe.Panic == "" {
-		for _, parts := range []int64{40, 8} {
+		for _, parts := range []int64{16} {
 			every := probe.FuelSpent / parts
 			if every < 1 {
 				every = 1
@@ -130,6 +130,31 @@ func C13(c *fw.Ctx) {
 				model.Print(model.CallN(model.BiKeys, model.Id("ob2"))), model.Print(model.CallN(model.BiValues, model.Id("ob2"))))
 			judgeAllSchedules(c, prog, fmt.Sprintf("literal-%d", n))
 			oneOutcome(c, model.Render(parenAll(prog)), "", fmt.Sprintf("literal-%d", n))
+		}
+	}
+	// A2: the same with property names that are names of built-ins, or differ only in digit script,
+	// leading zeros or canonical form (whatever the interpreter makes of such a literal, it must make
+	// the same of it every time)
+	for _, pool := range [][]string{{model.BiLen, model.BiInputLatin, model.BiAppend, model.BiMax}, {"k1", "k01", "k\u09e7", "K1"}, {"k\u09DF", "k\u09AF\u09BC", "e\u0301", "\u00e9"}} {
+		for n := 1; n <= 4; n++ {
+			for pi, perm := range permutations(n) {
+				if n == 4 && pi%7 != 0 && c.Quick() {
+					continue // quick: four of the 24 orders of four names
+				}
+				if !c.Mine() {
+					continue
+				}
+				var ks []string
+				var vs []*model.N
+				for i, p := range perm {
+					ks = append(ks, pool[p])
+					vs = append(vs, model.CallN("p", model.Str(fmt.Sprintf("T%d", i+1)), model.Num(float64(i+1))))
+				}
+				prog := append(c14Prelude(), model.Var("ob2", model.Obj(ks, vs)), model.Print(model.Id("ob2")),
+					model.Print(model.CallN(model.BiKeys, model.Id("ob2"))), model.Print(model.CallN(model.BiValues, model.Id("ob2"))),
+					model.Print(model.Prop(model.Id("ob2"), "zz")))
+				oneOutcome(c, model.Render(parenAll(prog)), "", fmt.Sprintf("literal-special-names-%d", n))
+			}
 		}
 	}
 	// B: objects built by writes in every order, then deletes
